@@ -5,6 +5,7 @@ import (
 	"math/big"
 	"math/rand"
 	"sort"
+	"time"
 
 	"github.com/MinterTeam/minter-go-node/coreV2/types"
 )
@@ -173,6 +174,9 @@ func DefaultCommission() types.Commission {
 		Lock:                    "100000000000000000",
 	}
 }
+
+// GenesisT0 is the time of InitChain in every generated history.
+var GenesisT0 = time.Date(2022, 5, 1, 9, 0, 0, 0, time.UTC)
 
 // Coin ids used by the generated genesis.
 const (
@@ -406,6 +410,12 @@ func BuildGenesis(spec GenSpec, r *rand.Rand) (*types.AppState, *World) {
 	if g.st.Versions == nil {
 		g.st.Versions = AllVersions(h0)
 	}
-	g.st.PrevReward = types.RewardPrice{Time: 0, AmountBIP: "0", AmountUSDT: "0", Reward: Bip(79).String()}
+	// previous reward-price record: taken one day before the chain's first block, at the genesis pool price
+	g.st.PrevReward = types.RewardPrice{Time: uint64(GenesisT0.Add(-21 * time.Hour).UnixNano()), AmountBIP: Bip(1000000).String(), AmountUSDT: Bip(5000).String(), Reward: Bip(79).String()}
+	for _, p := range g.pools {
+		if p.Coin0 == 0 && p.Coin1 == CoinUSDT {
+			g.st.PrevReward.AmountBIP, g.st.PrevReward.AmountUSDT = p.Reserve0, p.Reserve1
+		}
+	}
 	return &g.st, w
 }
